@@ -11,6 +11,7 @@ import (
 	"context"
 	"crypto/tls"
 	"io"
+	"log"
 	"net"
 	"net/http"
 	"net/url"
@@ -31,7 +32,6 @@ type (
 	ResponseWriter = http.ResponseWriter
 	Cookie         = http.Cookie
 	CookieJar      = http.CookieJar
-	Server         = http.Server
 	Flusher        = http.Flusher
 	ProtocolError  = http.ProtocolError
 )
@@ -106,6 +106,63 @@ func MaxBytesReader(w ResponseWriter, r io.ReadCloser, n int64) io.ReadCloser {
 	return http.MaxBytesReader(w, r, n)
 }
 func ParseTime(text string) (time.Time, error) { return http.ParseTime(text) }
+
+// Server mirrors the commonly set fields of http.Server.  Inside a simulated
+// process Serve hands the handler to the process simulator (which delivers
+// requests to it directly) and blocks until Shutdown or Close.
+type Server struct {
+	Addr              string
+	Handler           Handler
+	TLSConfig         *tls.Config
+	ReadTimeout       time.Duration
+	ReadHeaderTimeout time.Duration
+	WriteTimeout      time.Duration
+	IdleTimeout       time.Duration
+	MaxHeaderBytes    int
+	ErrorLog          *log.Logger
+	BaseContext       func(net.Listener) context.Context
+	ConnContext       func(ctx context.Context, c net.Conn) context.Context
+
+	sonce sync.Once
+	sreal *http.Server
+	env   simhook.ProcEnv
+}
+
+func (s *Server) realServer() *http.Server {
+	s.sonce.Do(func() {
+		s.sreal = &http.Server{Addr: s.Addr, Handler: s.Handler, TLSConfig: s.TLSConfig, ReadTimeout: s.ReadTimeout, ReadHeaderTimeout: s.ReadHeaderTimeout,
+			WriteTimeout: s.WriteTimeout, IdleTimeout: s.IdleTimeout, MaxHeaderBytes: s.MaxHeaderBytes, ErrorLog: s.ErrorLog, BaseContext: s.BaseContext, ConnContext: s.ConnContext}
+	})
+	return s.sreal
+}
+
+func (s *Server) Serve(l net.Listener) error {
+	if env := simhook.CurProcEnv(); env != nil {
+		s.env = env
+		return env.Serve(l, s.Handler)
+	}
+	return s.realServer().Serve(l)
+}
+
+func (s *Server) Shutdown(ctx context.Context) error {
+	env := s.env
+	if env == nil {
+		env = simhook.CurProcEnv()
+	}
+	if env != nil {
+		return env.Shutdown(ctx)
+	}
+	return s.realServer().Shutdown(ctx)
+}
+
+func (s *Server) Close() error {
+	if s.env != nil {
+		return s.env.Shutdown(context.Background())
+	}
+	return s.realServer().Close()
+}
+
+func (s *Server) ListenAndServe() error { return s.realServer().ListenAndServe() }
 
 // Transport mirrors the commonly set fields of http.Transport.
 type Transport struct {
